@@ -15,8 +15,8 @@ import (
 	sdk "github.com/cosmos/cosmos-sdk/types"
 
 	"github.com/bandprotocol/chain/v3/cylinder/client"
-	cgroup "github.com/bandprotocol/chain/v3/cylinder/workers/group"
 	"github.com/bandprotocol/chain/v3/cylinder/store"
+	cgroup "github.com/bandprotocol/chain/v3/cylinder/workers/group"
 	"github.com/bandprotocol/chain/v3/pkg/tss"
 	tsstypes "github.com/bandprotocol/chain/v3/x/tss/types"
 
@@ -66,13 +66,13 @@ func (d *Driver) world() *world.World {
 type member struct {
 	id       int
 	acct     world.Account
-	r1       *tss.Round1Info                 // the daemon-side round-1 data (coefficients, one-time key)
-	r1msg    *tsstypes.MsgSubmitDKGRound1    // last well-formed round-1 message (replayed on duplicates)
-	accepted bool                            // round-1 info accepted by the chain
-	r2msg    *tsstypes.MsgSubmitDKGRound2    // last well-formed round-2 message
-	r2ok     bool                            // round-2 info accepted
-	delta    map[int]int                     // recipient -> what was added to its share in the accepted round 2
-	priv     tss.Scalar                      // own private key as derived in round 3
+	r1       *tss.Round1Info              // the daemon-side round-1 data (coefficients, one-time key)
+	r1msg    *tsstypes.MsgSubmitDKGRound1 // last well-formed round-1 message (replayed on duplicates)
+	accepted bool                         // round-1 info accepted by the chain
+	r2msg    *tsstypes.MsgSubmitDKGRound2 // last well-formed round-2 message
+	r2ok     bool                         // round-2 info accepted
+	delta    map[int]int                  // recipient -> what was added to its share in the accepted round 2
+	priv     tss.Scalar                   // own private key as derived in round 3
 }
 
 type session struct {
